@@ -977,7 +977,180 @@ def vendor_cases():
         out.append({"vendor": "clickhouse-functions", "cls": c})
     out.append({"vendor": "mysql-load", "cls": "MySQLQuery"})
     out.append({"vendor": "vertica-copy", "cls": "VerticaQuery"})
+    # every clause renderer (_*_sql) of QueryBuilder and of the dialect builders, under every class that has it
+    for c in CLS_NAMES:
+        out.append({"vendor": "clause-inventory", "cls": c})
+        for label, (fn, methods, only) in CLAUSES.items():
+            if only is None or c in only:
+                out.append({"vendor": "clause-" + label, "cls": c})
     return out
+
+
+# ----------------------------------------------------------------------------------------------
+# clause coverage: one statement per clause renderer, with sentinel identifiers / aliases / literals inside the clause
+# ----------------------------------------------------------------------------------------------
+def _cl_select(Q, t, reg):
+    from pypika import Table, functions as fn
+    u = Table(reg("zt20", "ident")).as_(reg("za21", "alias"))
+    return (Q.from_(t).join(u).on(t.field(reg("zc22", "ident")) == u.field(reg("zc23", "ident")))
+            .select(t.field(reg("zc24", "ident")).as_(reg("za25", "alias")), fn.Sum(t.field(reg("zc26", "ident"))))
+            .distinct().where(t.field(reg("zc27", "ident")) == reg("zs28", "string"))
+            .groupby(t.field(reg("zc29", "ident"))).having(fn.Sum(t.field(reg("zc30", "ident"))) > reg("zs31", "string"))
+            .orderby(t.field(reg("zc32", "ident"))).limit(5).offset(2).for_update())
+
+
+def _cl_prewhere(Q, t, reg):
+    f = lambda n: t.field(reg(n, "ident"))    # noqa: E731
+    return (Q.from_(t).select(f("zc20"))
+            .prewhere(f("zc21") == reg("zs22", "string")).prewhere(f("zc23").isin([reg("zs24", "string"), reg("zs25", "string")]))
+            .prewhere(f("zc26").between(reg("zs27", "string"), reg("zs28", "string"))).prewhere(f("zc29").isnull())
+            .prewhere(f("zc30").notnull() & f("zc31").like(reg("zs32", "string"))))
+
+
+def _cl_indexes(Q, t, reg):
+    return Q.from_(t).select(t.field(reg("zc20", "ident"))).force_index(reg("zc21", "ident"), reg("zc22", "ident")).use_index(reg("zc23", "ident"))
+
+
+def _cl_totals_rollup(Q, t, reg):
+    from pypika import functions as fn
+    a = Q.from_(t).select(t.field(reg("zc20", "ident")), fn.Sum(t.field(reg("zc21", "ident")))).groupby(t.field(reg("zc22", "ident"))).with_totals()
+    b = Q.from_(t).select(t.field(reg("zc23", "ident")), fn.Sum(t.field(reg("zc24", "ident")))).rollup(t.field(reg("zc25", "ident")), vendor="mysql")
+    c = Q.from_(t).select(t.field(reg("zc26", "ident")), fn.Sum(t.field(reg("zc27", "ident")))).rollup(t.field(reg("zc28", "ident")), t.field(reg("zc29", "ident")))
+    return [a, b, c]
+
+
+def _cl_insert(Q, t, reg):
+    from pypika import Table
+    u = Table(reg("zt20", "ident"))
+    a = Q.into(t).columns(reg("zc21", "ident"), t.field(reg("zc22", "ident"))).insert(1, reg("zs23", "string")).insert(2, reg("zs24", "string"))
+    b = Q.into(t).columns(reg("zc25", "ident")).replace(reg("zs26", "string"))
+    c = Q.into(t).columns(reg("zc27", "ident")).from_(u).select(u.field(reg("zc28", "ident"))).where(u.field(reg("zc29", "ident")) == reg("zs30", "string"))
+    d = Q.from_(u).select(u.field(reg("zc31", "ident"))).into(Table(reg("zt32", "ident")))
+    return [a, b, c, d]
+
+
+def _cl_update_delete(Q, t, reg):
+    from pypika import Table
+    u = Table(reg("zt20", "ident"))
+    a = (Q.update(t).set(reg("zc21", "ident"), reg("zs22", "string")).set(t.field(reg("zc23", "ident")), t.field(reg("zc24", "ident")))
+         .where(t.field(reg("zc25", "ident")) == reg("zs26", "string")).limit(1))
+    b = Q.update(t).join(u).on(t.field(reg("zc27", "ident")) == u.field(reg("zc28", "ident"))).set(t.field(reg("zc29", "ident")), u.field(reg("zc30", "ident")))
+    c = Q.from_(t).delete().where(t.field(reg("zc31", "ident")).isin([reg("zs32", "string")]))
+    d = Q.update(t).from_(u).set(t.field(reg("zc33", "ident")), u.field(reg("zc34", "ident")))
+    return [a, b, c, d]
+
+
+def _cl_temporal(Q, t, reg):
+    from pypika import Table, SYSTEM_TIME
+    v = Table(reg("zt20", "ident")).for_(SYSTEM_TIME.as_of(reg("zs21", "string")))
+    w = Table(reg("zt22", "ident")).for_(SYSTEM_TIME.between(reg("zs23", "string"), reg("zs24", "string"))).as_(reg("za25", "alias"))
+    return [Q.from_(v).select(v.field(reg("zc26", "ident"))), Q.from_(w).select(w.field(reg("zc27", "ident")))]
+
+
+def _cl_window(Q, t, reg):
+    from pypika import analytics as an, functions as fn
+    f = lambda n: t.field(reg(n, "ident"))    # noqa: E731
+    w1 = an.Sum(f("zc20")).over(f("zc21")).orderby(f("zc22")).rows(an.Preceding(2), an.CURRENT_ROW).as_(reg("za23", "alias"))
+    w2 = an.Rank().over(f("zc24"), f("zc25")).orderby(f("zc26")).as_(reg("za27", "alias"))
+    w3 = fn.Count(f("zc28")).filter(f("zc29") == reg("zs30", "string")).as_(reg("za31", "alias"))
+    return Q.from_(t).select(w1, w2, w3)
+
+
+def _cl_with_setop(Q, t, reg):
+    from pypika import Table, AliasedQuery
+    u = Table(reg("zt20", "ident"))
+    sub = Q.from_(u).select(u.field(reg("zc21", "ident"))).where(u.field(reg("zc22", "ident")) == reg("zs23", "string"))
+    a = Q.with_(sub, "cte1").from_(AliasedQuery("cte1")).select("*")
+    b = (Q.from_(t).select(t.field(reg("zc24", "ident")).as_(reg("za25", "alias"))).union(Q.from_(u).select(u.field(reg("zc26", "ident")).as_(reg("za27", "alias"))))
+         .orderby(t.field(reg("zc28", "ident"))).limit(3).offset(1))
+    return [a, b]
+
+
+def _cl_mysql(Q, t, reg):
+    from pypika.terms import Values
+    a = (Q.into(t).insert(1, reg("zs20", "string")).on_duplicate_key_update(t.field(reg("zc21", "ident")), reg("zs22", "string"))
+         .on_duplicate_key_update(reg("zc23", "ident"), Values(t.field(reg("zc24", "ident")))))
+    b = Q.into(t).insert(1).on_duplicate_key_ignore()
+    c = Q.from_(t).select(t.field(reg("zc25", "ident"))).modifier("SQL_CALC_FOUND_ROWS").for_update(of=(reg("zt26", "ident"),), nowait=True)
+    return [a, b, c]
+
+
+def _cl_pg(Q, t, reg):
+    from pypika import Table
+    u = Table(reg("zt20", "ident"))
+    a = (Q.into(t).insert(1, reg("zs21", "string")).on_conflict(t.field(reg("zc22", "ident"))).do_update(t.field(reg("zc23", "ident")), reg("zs24", "string"))
+         .do_update(reg("zc25", "ident")).where(t.field(reg("zc26", "ident")) == reg("zs27", "string")).returning(t.field(reg("zc28", "ident")), reg("zc29", "ident")))
+    b = Q.into(t).insert(1).on_conflict(reg("zc30", "ident")).do_nothing()
+    c = Q.from_(t).select(t.field(reg("zc31", "ident")).as_(reg("za32", "alias"))).distinct_on(t.field(reg("zc33", "ident")), reg("zc34", "ident"))
+    d = Q.from_(t).select(t.field(reg("zc35", "ident"))).for_update(of=(reg("zt36", "ident"),), skip_locked=True)
+    e = Q.from_(t).using(u).where(t.field(reg("zc37", "ident")) == u.field(reg("zc38", "ident"))).delete()
+    return [a, b, c, d, e]
+
+
+def _cl_mssql(Q, t, reg):
+    return Q.from_(t).select(t.field(reg("zc20", "ident")).as_(reg("za21", "alias"))).top(3, percent=True, with_ties=True).orderby(t.field(reg("zc22", "ident")))
+
+
+def _cl_clickhouse(Q, t, reg):
+    a = (Q.from_(t).select(t.field(reg("zc20", "ident")).as_(reg("za21", "alias"))).final().sample(10, 5)
+         .distinct_on(t.field(reg("zc22", "ident")), reg("zc23", "ident")).limit_by(2, t.field(reg("zc24", "ident")), reg("zc25", "ident")))
+    b = Q.from_(t).select(t.field(reg("zc26", "ident"))).limit_offset_by(2, 1, t.field(reg("zc27", "ident")))
+    c = Q.update(t).set(reg("zc28", "ident"), reg("zs29", "string")).where(t.field(reg("zc30", "ident")) == reg("zs31", "string"))
+    d = Q.from_(t).delete().where(t.field(reg("zc32", "ident")) == reg("zs33", "string"))
+    return [a, b, c, d]
+
+
+def _cl_sqlite(Q, t, reg):
+    return Q.into(t).columns(reg("zc20", "ident")).insert_or_replace(reg("zs21", "string"))
+
+
+def _cl_vertica(Q, t, reg):
+    return Q.from_(t).select(t.field(reg("zc20", "ident")).as_(reg("za21", "alias"))).hint("lbl")
+
+
+# label -> (builder, the _*_sql methods it exercises, classes it applies to (None = all ten))
+CLAUSES = {
+    "select": (_cl_select, {"_select_sql", "_distinct_sql", "_from_sql", "_where_sql", "_group_sql", "_having_sql", "_orderby_sql",
+                            "_limit_sql", "_offset_sql", "_for_update_sql"}, None),
+    "prewhere": (_cl_prewhere, {"_prewhere_sql"}, None),
+    "indexes": (_cl_indexes, {"_force_index_sql", "_use_index_sql"}, None),
+    "totals-rollup": (_cl_totals_rollup, {"_group_sql", "_rollup_sql"}, None),
+    "insert": (_cl_insert, {"_insert_sql", "_replace_sql", "_columns_sql", "_values_sql", "_into_sql"}, None),
+    "update-delete": (_cl_update_delete, {"_update_sql", "_set_sql", "_delete_sql", "_from_sql", "_limit_sql"}, None),
+    "temporal": (_cl_temporal, {"_temporal_sql"}, None),
+    "window": (_cl_window, set(), None),
+    "with-setop": (_cl_with_setop, {"_with_sql", "_orderby_sql"}, None),
+    "mysql": (_cl_mysql, {"_on_duplicate_key_update_sql", "_on_duplicate_key_ignore_sql", "_for_update_sql", "_select_sql"}, ["MySQLQuery"]),
+    "postgresql": (_cl_pg, {"_on_conflict_sql", "_on_conflict_action_sql", "_returning_sql", "_distinct_sql", "_for_update_sql", "_using_sql"},
+                   ["PostgreSQLQuery"]),
+    "mssql": (_cl_mssql, {"_top_sql", "_select_sql", "_limit_sql", "_offset_sql"}, ["MSSQLQuery"]),
+    "clickhouse": (_cl_clickhouse, {"_limit_by_sql", "_from_sql", "_distinct_sql", "_update_sql", "_set_sql", "_delete_sql"}, ["ClickHouseQuery"]),
+    "sqlite": (_cl_sqlite, {"_replace_sql"}, ["SQLLiteQuery"]),
+    "vertica": (_cl_vertica, set(), ["VerticaQuery"]),
+}
+# renderers that belong to builders checked elsewhere (DDL: C17; LOAD / COPY: vendor cases mysql-load / vertica-copy)
+# renderers a class inherits but cannot reach through its public builder methods (only PostgreSQLQueryBuilder has using())
+CLAUSES_UNREACHABLE = {"_using_sql": ["PostgreSQLQuery"]}
+CLAUSES_ELSEWHERE = {"_create_table_sql", "_table_options_sql", "_body_sql", "_as_select_sql", "_preserve_rows_sql",
+                     "_load_file_sql", "_into_table_sql", "_options_sql", "_copy_table_sql", "_from_file_sql"}
+
+
+def clause_inventory(cls_name):
+    """every `_*_sql` method defined in pypika/queries.py and pypika/dialects.py on the builder of [cls_name] (its whole MRO),
+    on Table and on _SetOperation, plus those of classes this check does not render; read off the imported source"""
+    import inspect
+    import pypika.queries as PQ
+    import pypika.dialects as PD
+    own, other = set(), set()
+    b = qclass(cls_name)._builder()
+    mro = set(type(b).__mro__) | {PQ.Table, PQ._SetOperation}
+    for mod in (PQ, PD):
+        for _, k in inspect.getmembers(mod, inspect.isclass):
+            if k.__module__ != mod.__name__:
+                continue
+            names = {m for m in vars(k) if re.match(r"_\w+_sql$", m)}
+            (own if k in mro else other).update(names)
+    return own, other
 
 
 def run_vendor(case):
@@ -991,6 +1164,37 @@ def run_vendor(case):
         meta[name] = (role, kind, inner or case["cls"], inner or case["cls"], inner or case["cls"])
         return name
     t = Table(reg("zt1", "ident"))
+    if v == "clause-inventory":
+        own, other = clause_inventory(case["cls"])
+        covered = set()
+        for label, (fn_, methods, only) in CLAUSES.items():
+            if only is None or case["cls"] in only:
+                covered |= methods
+        all_known = set(CLAUSES_ELSEWHERE)
+        for label, (fn_, methods, only) in CLAUSES.items():
+            all_known |= methods
+        unreachable = {m for m, only in CLAUSES_UNREACHABLE.items() if case["cls"] not in only}
+        return {"text": "", "meta": {}, "uncovered": sorted(own - covered - CLAUSES_ELSEWHERE - unreachable),
+                "unknown": sorted((own | other) - all_known)}
+    if v.startswith("clause-"):
+        qs = CLAUSES[v[len("clause-"):]][0](Q, t, reg)
+        qs = qs if isinstance(qs, list) else [qs]
+        texts = [str(q) for q in qs]
+        if not any("zt1" in x for x in texts):
+            del meta["zt1"]
+        # the same SELECT statements as sub-queries of statements built by OTHER classes: every clause must take the
+        # conventions from the context it is handed, not from its own builder
+        nested = []
+        outers = [o for o in ("MySQLQuery", "OracleQuery", "Query") if o != case["cls"]][:2]
+        for o in outers:
+            for q in qs:
+                if getattr(q, "_selects", None) and not getattr(q, "_insert_table", None) and not getattr(q, "_update_table", None) \
+                        and not getattr(q, "_delete_from", False):
+                    try:
+                        nested.append([o, str(qclass(o).from_(q.as_("zq99")).select("*"))])
+                    except Exception as e:  # noqa
+                        nested.append([o, "!" + type(e).__name__])
+        return {"text": " ; ".join(texts), "meta": meta, "nested": nested}
     if v == "forms":
         u = Table(reg("zt2", "ident"))
         I = qclass(case["inner"])
@@ -1045,11 +1249,29 @@ def run_vendor(case):
 
 def vendor_oracle(case, outcome):
     cls, v = case["cls"], case["vendor"]
+    if v == "clause-inventory":
+        out = []
+        for m in outcome.get("unknown", []):
+            out.append({"signature": ["C07", cls, cls, "vendor:clause-inventory", "unknown-renderer:" + m],
+                        "what": "pypika has a clause renderer %s that no C07 clause case exercises (add it to CLAUSES in harness/props/C07.py)" % m})
+        for m in outcome.get("uncovered", []):
+            out.append({"signature": ["C07", cls, cls, "vendor:clause-inventory", "uncovered-renderer:" + m],
+                        "what": "the builder of %s has the clause renderer %s but no clause case of that class exercises it" % (cls, m)})
+        return out
     text = outcome["text"]
     meta = {k: tuple(x) for k, x in outcome["meta"].items()}
     out = sentinel_report(text, meta, class_conv(cls), cls)
     for x in out:
-        x["signature"] = ["C07", cls, case.get("inner", cls), "vendor:" + v, x["signature"][4]]
+        if x["signature"][4] not in POSITION_FREE:      # the documented class-wide residue keeps its own signature
+            x["signature"] = ["C07", cls, case.get("inner", cls), "vendor:" + v, x["signature"][4]]
+    for o, txt in outcome.get("nested", []):
+        if txt.startswith("!"):
+            out.append({"signature": ["C07", o, cls, "vendor:" + v + "-nested", "exception"], "what": "nested rendering raised " + txt})
+            continue
+        for x in sentinel_report(txt, {k: m for k, m in meta.items() if k in txt}, class_conv(o), o):
+            if x["signature"][4] not in POSITION_FREE:
+                x["signature"] = ["C07", o, cls, "vendor:" + v + "-nested", x["signature"][4]]
+            out.append(x)
     seen_names = {val for kind, val, _ in lex(" ; ".join([text] + list(outcome.get("extra", [])))) if kind in ("q", "word")}
     for name in meta:
         if name not in seen_names:
